@@ -343,12 +343,13 @@ CHECKS = {
         "min_obs": {"datagrams_compared": 2000, "replies_checked": 200, "malformed_frames": 10},
     },
     "C19": {
-        "scenarios": [("C19-counter", "vsim"), ("C19-account", "vsim"), ("C19-account", "vreal", 0.5), ("C19-quota", "vsim"), ("C19-conc", "vrace")],
+        "scenarios": [("C19-counter", "vsim"), ("C19-account", "vsim"), ("C19-account", "vreal", 0.5), ("C19-quota", "vsim"), ("C19-reload", "vreal"), ("C19-conc", "vrace")],
         "races": True,
         "rule": "(a) a time-series counter under 2600 increments at virtual instants (bursts within a millisecond, gaps of seconds to six "
                 "weeks, extra reads that move the roll-up trigger to every operation count): Load = sum of increments, sum of history "
                 "deltas = Load, history times non-decreasing after every compaction, all-time window = total, random windows <= total, "
-                "additive and monotone, last-second window exact, export/import keeps the total; (b) per-user upload/download counters "
+                "additive and monotone, last-second window exact, export/import keeps the total; dump to a file and load in a freshly started "
+                "process (where the user's metric group does not exist yet): totals and 24 h windows unchanged; (b) per-user upload/download counters "
                 "of fresh users equal the bytes the server application read / wrote in 1-3 sessions per user on both transports, with "
                 "read buffers from 7 bytes to 64 KiB, with the input loop held by a hook in half of the cases; (c) quota users (single "
                 "2 MB/day, two quotas 3 MB/day + 5 MB/30 days, none): within allowance never refused, ~4 MiB on a 2 MB quota refused "
